@@ -647,7 +647,10 @@ class SubprocessTestCaseExecutor(TestCaseExecutor):
             "Unpicklable exceptions",
             lambda bad: _filter_bad_exceptions(result, bad),
             "Failed to fix exceptions for pickle",
-            lambda: _clear_bad_exceptions(result),
+            # ``baditems`` itself raises when re-creating an exception from its args raises
+            # something dill does not expect (e.g. AttributeError in ``__init__``): transport
+            # every exception as (type, args, state) instead of forgetting all of them.
+            lambda: _filter_bad_exceptions(result, list(result.exceptions.values())),
         )
 
         SubprocessTestCaseExecutor._fix_unpicklable(
